@@ -68,9 +68,19 @@ inductive LabelSyntax
   | lit (text : Bytes)        -- *ast.BasicLit{Kind: token.STRING}, text incl. the quotes
 deriving DecidableEq, Repr
 
-/-- `exporter.stringLabel` (default arm) = `ast.NewStringLabel(name)` -/
+/-- `ast.NewStringLabel(name)` -/
 def printLabel (E : Quote.Env) (lU dU : Nat → Bool) (s : Bytes) : LabelSyntax :=
   if needsQuoting lU dU s then .lit (Quote.quote E Quote.stringForm s) else .ident s
+
+/-- the names `package` and `import`: at the top level of a file the parser reads them as the
+start of a package clause / import declaration, not as a field label -/
+def isFileKeyword (s : Bytes) : Bool :=
+  s == [112, 97, 99, 107, 97, 103, 101] || s == [105, 109, 112, 111, 114, 116]
+
+/-- `exporter.stringLabel`, default arm (since /repo 6c9a0c0): `package` and `import` are always
+quoted (`ast.NewString`), every other name goes through `ast.NewStringLabel` -/
+def exportLabel (E : Quote.Env) (lU dU : Nat → Bool) (s : Bytes) : LabelSyntax :=
+  if isFileKeyword s then .lit (Quote.quote E Quote.stringForm s) else printLabel E lU dU s
 
 /-- `adt.Feature` as far as its type and name are concerned -/
 inductive Feature
